@@ -36,7 +36,7 @@ type verifC16Chk struct {
 //
 //	cfg                                            first op: agent configuration of the case
 //	add-svc rm-svc add-chk rm-chk upd-chk meta discard   local ops, performed the way agent.go calls into local.State
-//	d-svc d-tags d-taddr d-rm-svc d-chk d-rm-chk d-node-meta d-rm-node d-consul d-serf   drift applied to the catalog directly
+//	d-svc d-tags d-eto d-taddr d-rm-svc d-chk d-rm-chk d-node-meta d-rm-node d-consul d-serf   drift applied to the catalog directly
 //	sync-changes sync-full                         sync calls
 type verifC16Op struct {
 	K string `json:"k"`
@@ -236,6 +236,7 @@ func (x *verifC16Run) guard(what string, fn func()) (ok bool) {
 		x.fail("C16/panic/"+verifC16PanicSite(st), "panic during %s: %v\n%s", what, r, verifC16Trunc(st, 5000))
 	}()
 	fn()
+	return true
 }
 
 var verifC16Sanitize = regexp.MustCompile(`[^A-Za-z0-9_.=-]+`)
